@@ -352,7 +352,17 @@ var (
 	c20AfterRun   func(r *Run, s *c20Sys, t c20Trace, idle bool)
 )
 
+// c20Hangs counts engine runs of this process that never ended. Their goroutines cannot be stopped and keep
+// spinning, so after three of them no further whole-platform run is started: the harness then still ends within
+// its budget and reports the hanging traces as concrete failing inputs (C20.terminates.hang) instead of being
+// killed by the time limit with nothing to show.
+var c20Hangs int
+
 func c20RunCase(r *Run, G, S, C int, t c20Trace) {
+	if c20Hangs >= 3 {
+		r.Count("run:skipped-after-3-hangs")
+		return
+	}
 	k, b, w, n, deg := t.totals()
 	s := c20Build(G, S, C)
 	if c20AfterBuild != nil {
@@ -371,6 +381,7 @@ func c20RunCase(r *Run, G, S, C int, t c20Trace) {
 	r.Count("run:" + deg)
 	r.Count(fmt.Sprintf("shape:%dx%dx%d", G, S, C))
 	if !ok {
+		c20Hangs++
 		r.Failf("C20.terminates.hang", cfg, "engine still running after 20 s wall clock")
 		return
 	}
